@@ -144,6 +144,11 @@ def strip_attrs(data, item, tlog, keep_derive_copy=True):
         tlog.append({"t": "T15", "item": item["path"], "note": "%d field visibilities widened to pub" % nvis})
     for (a, b, rep) in sorted(cuts, reverse=True):
         text = text[:a] + rep + text[b:]
+    # T15 (items): `struct X` / `pub(crate) struct X` -> `pub struct X` (specs that are `open` may only mention public types)
+    m = re.search(rb"(?m)^(\s*)(pub\s*\([^)]*\)\s+|pub\s+)?(struct|enum)\b", text)
+    if m and (m.group(2) or b"").strip() != b"pub":
+        text = text[:m.start()] + m.group(1) + b"pub " + m.group(3) + text[m.end():]
+        tlog.append({"t": "T15", "item": item["path"], "note": "item visibility widened to pub"})
     # T1: a dropped, compiler-generated Clone becomes an axiomatised structural clone
     dropped_clone = any(t.get("t") == "T1" and t.get("item") == item["path"] and "Clone" in t.get("dropped_derives", []) for t in tlog)
     if dropped_clone and item["kind"] in ("struct", "enum") and not (item.get("generics") or "").strip():
@@ -395,6 +400,8 @@ def emit_fn(data, it, ckey, C, tlog, anchors_used, canary=False):
         ed2.replace(f["body_open"], f["body_close"] + 1, "{ unimplemented!() }")
         ed = ed2
     out = ed.apply(data, s, e)
+    for an, av in (it.get("_assoc") or {}).items():
+        out = re.sub(rb"\bSelf\s*::\s*" + an + rb"\b", av, out)
     if canary:
         out = re.sub(rb"\bfn\s+" + f["name"].encode() + rb"\b", b"fn " + f["name"].encode() + b"_vxcanary", out, count=1)
     if pre_attrs:
@@ -574,6 +581,15 @@ def assemble_unit(unit_dir, repo=None, canary=False):
                     cur_impl = hdr
                 if trait is not None:
                     tlog.append({"t": "T11", "item": sel, "note": "trait impl method emitted in an inherent impl"})
+                    # associated types of the trait impl (`type Result = ..;`) are substituted into the lifted signature
+                    assoc = {}
+                    for ai in items:
+                        if ai["kind"] == "impl_type" and ai.get("self_ty") == it["self_ty"] and (ai.get("trait") or "") == trait:
+                            mm = re.match(rb"\s*type\s+(\w+)\s*=\s*(.*?);\s*$", data[ai["start"]:ai["end"]], re.S)
+                            if mm:
+                                assoc[mm.group(1)] = mm.group(2)
+                    it = dict(it)
+                    it["_assoc"] = assoc
             else:
                 if cur_impl is not None:
                     body.append(b"}\n")
@@ -606,6 +622,11 @@ def assemble_unit(unit_dir, repo=None, canary=False):
                 if t2 != txt:
                     tlog.append({"t": "T9", "item": it["path"]})
                 txt = t2
+            elif it["kind"] == "type":
+                txt = raw
+                if not raw.lstrip().startswith(b"pub "):
+                    txt = b"pub " + re.sub(rb"^\s*pub\s*\([^)]*\)\s*", b"", raw.lstrip())
+                    tlog.append({"t": "T15", "item": it["path"], "note": "type alias visibility widened to pub"})
             else:
                 txt = raw
             body.append(("// ---- %s %s [%s:%d..%d sha %s]\n" % (it["kind"], sel, src["file"], it["start"], it["end"], sha(raw))).encode())
